@@ -100,6 +100,11 @@ def opt_family(mode: str, version: int, thorough: bool = False):
                 out.append(("opt:split%d:%s" % (cut, name),
                             prog(mode, ("Seq",) + tuple(st[:cut]) + (("If", e.u(0), ("Seq",) + tuple(st[cut:])), ("Return", ("Int", 1))),
                                  dict(V)), {}))
+        # (5) the first part inside a branch arm, the rest after the join (both variables initialised up front)
+        for cut in range(1, len(s)):
+            out.append(("opt:armfirst%d:%s" % (cut, name),
+                        prog(mode, ("Seq", ("Store", "x", e.u(6)), ("Store", "y", e.u(7)), e.tag(41),
+                                    ("If", e.u(0), ("Seq",) + tuple(st[:cut]))) + tuple(st[cut:]) + (("Return", ("Int", 1)),), dict(V)), {}))
     # user-numbered slots: final contents are observable (C03) and reserved ids are not optimised away
     for s in seqs[:: (3 if not thorough else 1)]:
         name = "".join(s)
